@@ -181,11 +181,11 @@ PROPS = {
     },
     "C10": {
         "engine": "sendsim",
-        "level_text": "one RegionRequestSender.SendReqCtx / SendReqAsync call at a time on the simulated clock against a 3-replica region (variants: learner, unreachable / slow stores, labels, forwarding); a client stub answers attempt i from a fault script over the property's alphabet (17 concrete symbols + ok; tails either ok or 'repeat the last n symbols forever'); ALL scripts of length <= 3 x 2 tails x 18 configurations are enumerated (187920 scenarios), longer scripts are sampled with replica-read mode, command kind, budgets, deadlines, cancellation, validator verdicts; oracle: the call returns within a stated simulated-time / attempt budget, no more than 64 consecutive attempts without simulated time passing, a returned success is pointer-identical to the stub's answer to the last attempt, returned region errors were delivered or are the client's fake one, writes never carry replica-read / stale-read flags, no attempt after a rejected validation, every re-send carries the retry marker",
+        "level_text": "one RegionRequestSender.SendReqCtx / SendReqAsync call at a time on the simulated clock against a 3-replica region (variants: learner, unreachable / slow stores, labels, forwarding); a client stub answers attempt i from a fault script over the property's alphabet (17 concrete symbols + ok; tails either ok or 'repeat the last n symbols forever'); ALL scripts of length <= 3 x 2 tails x 19 configurations are enumerated (198360 scenarios), longer scripts are sampled with replica-read mode, command kind, budgets, deadlines, cancellation, validator verdicts; oracle: the call returns within a stated simulated-time / attempt budget, no more than 64 consecutive attempts without simulated time passing, a returned success is pointer-identical to the stub's answer to the last attempt, returned region errors were delivered or are the client's fake one, writes never carry replica-read / stale-read flags, no attempt after a rejected validation, every re-send carries the retry marker",
         "level_note": "trusted: the scripted client stub (follows the real client's conventions), the budgets stated in sim/engines/sendsim/CHECK.md; the enumeration is complete for scripts up to length 3 only",
         "level": "fault_enumeration",
         "modes": [
-            {"mode": "enum", "quick": {"runs": 188000}, "thorough": {"runs": 188000}},
+            {"mode": "enum", "quick": {"runs": 200000}, "thorough": {"runs": 200000}},
             {"mode": "random", "quick": {"runs": 40000}, "thorough": {"runs": 1000000}},
         ],
         "rule": ("mode enum: run index = (script of length <= 3 over 17 fault symbols, tail, configuration), complete and independent of the seed; mode random: seeded scripts up to length 12 crossed with "
